@@ -3010,24 +3010,39 @@ func (c S3ApiController) DeleteObjects(ctx *fiber.Ctx) error {
 		}
 	}
 
-	err = auth.VerifyAccess(ctx.Context(), c.be,
-		auth.AccessOptions{
-			Readonly:      c.readonly,
-			Acl:           parsedAcl,
-			AclPermission: auth.PermissionWrite,
-			IsRoot:        isRoot,
-			Acc:           acct,
-			Bucket:        bucket,
-			Action:        auth.DeleteObjectAction,
-		})
-	if err != nil {
-		return SendResponse(ctx, err,
-			&MetaOpts{
-				Logger:      c.logger,
-				MetricsMng:  c.mm,
-				Action:      metrics.ActionDeleteObjects,
-				BucketOwner: parsedAcl.Owner,
+	// the access decision is taken per key (a policy may allow or deny
+	// single keys or prefixes): the request is refused as a whole when the
+	// caller may not delete one of its keys. An empty batch is still
+	// checked against the bucket.
+	toCheck := dObj.Objects
+	if len(toCheck) == 0 {
+		toCheck = []types.ObjectIdentifier{{}}
+	}
+	for _, obj := range toCheck {
+		key := ""
+		if obj.Key != nil {
+			key = *obj.Key
+		}
+		err = auth.VerifyAccess(ctx.Context(), c.be,
+			auth.AccessOptions{
+				Readonly:      c.readonly,
+				Acl:           parsedAcl,
+				AclPermission: auth.PermissionWrite,
+				IsRoot:        isRoot,
+				Acc:           acct,
+				Bucket:        bucket,
+				Object:        key,
+				Action:        auth.DeleteObjectAction,
 			})
+		if err != nil {
+			return SendResponse(ctx, err,
+				&MetaOpts{
+					Logger:      c.logger,
+					MetricsMng:  c.mm,
+					Action:      metrics.ActionDeleteObjects,
+					BucketOwner: parsedAcl.Owner,
+				})
+		}
 	}
 
 	// The AWS CLI sends 'True', while Go SDK sends 'true'
